@@ -5,6 +5,29 @@ Property theorems only; helper lemmas live in `Lemmas/Merge.lean`.
 The encoder (`Merge.escape`, `Merge.joinNames`) is built from `Generated/MergeConsts.lean`, i.e. from
 the separator and the `.replace(..)` chain that `_merge_columns` contains *now*; every theorem below
 depends on `escape_spec`, which is proved from those generated constants.
+
+CLAUSE → THEOREM TABLE (review R1; property text in properties.jsonl, id C13)
+  (1) "two rows belong to the same group exactly when they agree in every column (compared as strings)"
+        several columns (merged): `same_group_iff` (equal widths ≥ 1, column-wise form), `join_injective` (ANY two
+        non-empty rows, widths may differ), `mergeKey_injective` (on Lean `String`s, what the driver runs);
+        what the callers really do (1 column: NOT merged, NOT stringified; ≥ 2 columns: merged — thresholds lifted):
+        `encode_single`, `encode_multi`, `encode_injective`, `encode_same_group_iff` (+ `_control`), all widths ≥ 1.
+        "compared as strings": the model's cell IS the string numpy's `astype(str)` produced; `astype(str)` itself
+        (fixed-width `<U` truncation of a pre-typed unicode array, stripping of trailing NULs) is NOT modelled — it is in
+        the trusted list of harness/props/c13.py and observed by corpus/C13/truncated-stringification.json.
+  (2) "whatever characters the values contain – commas and backslashes included": all theorems quantify over
+        arbitrary `List Char` cells (empty strings, separators, escape characters): `escape_spec`, `split_join`.
+        Necessity of non-emptiness of the row: `empty_row_collides`.
+  (3) "so the induced partition equals MetricFrame's partition into non-empty intersectional groups":
+        `partition_eq_tuple`, `partition_eq_metricframe` (merged keys, width ≥ 1) and — for the group ids the callers
+        actually produce, single column included — `encode_partition_eq_tuple`, `encode_partition_eq_metricframe`
+        (sensitive and control).  `class_membership` / `same_class_iff`: what "partition" means position-wise.
+  (4) "ThresholdOptimizer applies at predict time the rule learned for the same tuple at fit time":
+        THEOREM at encoder level: `predict_selects_same_tuple` (the predict-time group id of a row equals the fit-time
+        group id of row i iff the two rows are the same tuple) + `fit_predict_same_encoder` (the lifted call sites of
+        fit and `_pmf_predict` reach the same function).  The dictionary lookup `interpolation_dict[group_id]` and the
+        application of the rule are NOT in the Lean model: they are CORRESPONDENCE only (c13.py relations
+        `C13.predict_rule_same_tuple`, `C13.to_keys`), checked against a first-principles per-tuple refit.
 -/
 import FairModel.Lemmas.Merge
 
@@ -175,6 +198,45 @@ theorem predict_selects_same_tuple (fitRows : List (List Str)) (q : List Str) (i
   rw [List.getElem_map]
   exact encode_same_group_iff q fitRows[i] hlen hpos
 
+/-- the partition induced by the group ids the callers actually produce (single column passed through, several
+    columns merged) is the partition by tuple equality — every rectangular table of width ≥ 1, sensitive and control -/
+theorem encode_partition_eq_tuple (rows : List (List Str)) (w : Nat) (hw : 0 < w) (hrect : ∀ r ∈ rows, r.length = w) :
+    classes (rows.map encodeSensitive) = classes rows ∧ classes (rows.map encodeControl) = classes rows := by
+  constructor
+  · exact classes_map encodeSensitive rows (fun x hx y hy h =>
+      (encode_injective x y (by rw [hrect x hx, hrect y hy]) (by rw [hrect x hx]; exact hw)).1 h)
+  · exact classes_map encodeControl rows (fun x hx y hy h =>
+      (encode_injective x y (by rw [hrect x hx, hrect y hy]) (by rw [hrect x hx]; exact hw)).2 h)
+
+/-- … and hence MetricFrame's partition into non-empty intersectional cells, at every width ≥ 1 (for width 1 the
+    "intersection" is the single column's levels) -/
+theorem encode_partition_eq_metricframe (rows : List (List Str)) (w : Nat) (hw : 0 < w)
+    (hrect : ∀ r ∈ rows, r.length = w) (c : List Nat) :
+    (c ∈ interCells rows w ↔ c ∈ classes (rows.map encodeSensitive)) ∧
+    (c ∈ interCells rows w ↔ c ∈ classes (rows.map encodeControl)) := by
+  have hne : ∀ r ∈ rows, r ≠ [] := by
+    intro r hr e
+    have := hrect r hr
+    simp [e] at this
+    omega
+  have h := partition_eq_metricframe rows w hw hrect c
+  rw [partition_eq_tuple rows hne] at h
+  obtain ⟨h1, h2⟩ := encode_partition_eq_tuple rows w hw hrect
+  rw [h1, h2]
+  exact ⟨h, h⟩
+
+/-- control features: same statement as `encode_same_group_iff` -/
+theorem encode_same_group_iff_control (r₁ r₂ : List Str) (hlen : r₁.length = r₂.length) (hpos : 0 < r₁.length) :
+    encodeControl r₁ = encodeControl r₂ ↔ r₁ = r₂ :=
+  ⟨(encode_injective r₁ r₂ hlen hpos).2, fun h => by rw [h]⟩
+
+/-- equal widths cannot be dropped for the CALLERS' group ids (they can for `join_injective`): the one-column row
+    `("a,b")` is passed through raw while the two-column row `("a","b")` is merged — different constructors, so no
+    collision arises in the model; in the code both become the Python string `'a,b'`, but never inside one table
+    (a table has one width), and fit/predict tables of different widths are outside the property -/
+example : encodeSensitive [['a', ',', 'b']] = .raw ['a', ',', 'b'] ∧
+    encodeSensitive [['a'], ['b']] = .merged ['a', ',', 'b'] := by decide +kernel
+
 example : encodeSensitive [['1']] = .raw ['1'] := by decide +kernel
 example : encodeSensitive [['1'], ['1', '.', '0']] = .merged ['1', ',', '1', '.', '0'] := by decide +kernel
 
@@ -200,5 +262,19 @@ example : mergeKey ["a,", "\\"] = "a\\,,\\\\" := by decide +kernel
 example : joinWith ([['\\'], [',']].map (replaceChar ',' ['\\', ','])) =
           joinWith ([[',', '\\'], []].map (replaceChar ',' ['\\', ','])) := by decide +kernel
 example : joinWith [['a', ','], ['b']] = joinWith [['a'], [',', 'b']] := by decide +kernel
+
+/-! non-vacuity of the caller-level theorems: width 1 and width 2 tables meeting every hypothesis -/
+def exRows1 : List (List Str) := [[[',']], [[]], [[',']], [['\\']]]
+example : ∀ r ∈ exRows1, r.length = 1 := by decide +kernel
+example : classes (exRows1.map encodeSensitive) = [[0, 2], [1], [3]] ∧ interCells exRows1 1 = [[0, 2], [1], [3]] := by
+  decide +kernel
+example : classes (exRows.map encodeSensitive) = [[0, 3], [1], [2], [4]] ∧
+    classes (exRows.map encodeControl) = classes exRows := by decide +kernel
+-- `predict_selects_same_tuple`: query row = fit row 3 (≠ fit row 1 although both contain only separators/escapes)
+example : (exRows.map encodeSensitive)[3]'(by decide) = encodeSensitive [[','], ['\\']] ∧
+    (exRows.map encodeSensitive)[1]'(by decide) ≠ encodeSensitive [[','], ['\\']] := by decide +kernel
+example : ([[','], ['\\']] : List Str).length = exRows[3].length ∧ 0 < ([[','], ['\\']] : List Str).length := by decide
+-- `same_group_iff`: both directions on concrete rows
+example : joinNames [[','], []] ≠ joinNames [[], [',']] ∧ joinNames [['a'], []] = joinNames [['a'], []] := by decide +kernel
 
 end C13
